@@ -529,6 +529,14 @@ def replay(case):
     if meta.get("again"):
         st, base_text = _compile_again(case["base"], cfg)
     check_variant(case["base"], base_text, case["recipe"], cfg, out, meta, nonce=nb, again=bool(meta.get("again")))
+    # a deviation that is one of the recorded findings of the unchanged tree is named as such, not "reproduced"
+    findings = common.load_findings()
+    fresh = []
     for v in out["violations"]:
-        print("still violates:", v["title"])
-    return bool(out["violations"])
+        f = common.match_finding(findings, PID, v)
+        if f is not None:
+            print("deviates, as recorded in known finding %s: %s" % (f["id"], v["title"]))
+        else:
+            fresh.append(v)
+            print("still violates:", v["title"])
+    return bool(fresh)
